@@ -45,7 +45,8 @@ InitW(cap) ==
     gotOvf  |-> 0,
     ovfFion |-> -1,        \* bytes in the kernel queue at the first observation after the overflow (queue full)
     room    |-> 0,         \* lower bound on the free slots of the kernel queue since then (from observed FIONREAD)
-    readded |-> {},        \* paths added again after their watch ended or was re-pointed
+    readded |-> {},
+    recursive |-> FALSE,   \* a recursive watch was added (C19)        \* paths added again after their watch ended or was re-pointed
     cap     |-> cap,
     postClose |-> 0,       \* events received after Close returned
     gonePaths |-> {},      \* paths whose watch ended by deletion / rename and that were not added again
@@ -282,7 +283,7 @@ Settle(ws) ==
 ---------------------------------------------------------------------------
 (* API calls. *)
 
-Entry(P, mask, rec) == [path |-> P, mask |-> mask, st |-> "live", how |-> "", endSeq |-> 0, rec |-> rec]
+Entry(P, mask, rec) == [path |-> P, mask |-> mask, st |-> "live", how |-> "", endSeq |-> 0, rec |-> rec, root |-> <<>>]
 
 \* Add(P) where the cleaned argument P currently resolves to inode i (reserr = "") or fails to resolve.
 IdealAdd(ws, P, i, reserr, mask, ret) ==
@@ -312,6 +313,46 @@ IdealAdd(ws, P, i, reserr, mask, ret) ==
   ELSE RelaxChildRemoves([ws EXCEPT !.uw = (i :> Entry(P, mask, FALSE)) @@ @, !.gonePaths = @ \ {P},
                                     !.readded = IF P \in ws.gonePaths THEN @ \cup {P} ELSE @], P)
 
+---------------------------------------------------------------------------
+(* Recursive watches (C19; the unfinished feature): Add(root/...) covers   *)
+(* every directory below the root; a directory created inside the tree is  *)
+(* covered once its Create has been delivered; a directory renamed within  *)
+(* the tree, and everything below it, is reported under the new location;  *)
+(* Remove(root/...) removes exactly that tree.  Paths are compared         *)
+(* component-wise (Paths!IsUnder), never as strings.                       *)
+IdealAddRec(ws, P, reserr, tree, mask, ret) ==
+  IF ws.phase # "open" THEN ws
+  ELSE IF reserr # "" THEN (IF ret = "ok" THEN Bad(ws, {"C04", "C19"}, "add_ok_on_unresolvable:" \o reserr) ELSE ws)
+  ELSE IF ret # "ok" THEN Bad(ws, {"C04", "C19"}, "add_failed:" \o ret)
+  ELSE LET new == [k \in {tree[j].ino : j \in 1..Len(tree)} |->
+                     LET j == CHOOSE j \in 1..Len(tree) : tree[j].ino = k IN
+                     [Entry(tree[j].path, mask, TRUE) EXCEPT !.root = P]]
+       IN Note([ws EXCEPT !.uw = [x \in (DOMAIN new) \cup (DOMAIN ws.uw) |-> IF x \in DOMAIN new THEN new[x] ELSE ws.uw[x]],
+                          !.recursive = TRUE], "recursive")
+
+\* a directory was created in / moved within a recursively watched tree (from the fs line of the trace)
+CoverNewDir(ws, parentIno, name, ino) ==
+  IF parentIno \in DOMAIN ws.uw /\ ws.uw[parentIno].rec /\ ws.uw[parentIno].st = "live" /\ ino \notin DOMAIN ws.uw
+  THEN [ws EXCEPT !.uw = (ino :> [Entry(Append(ws.uw[parentIno].path, name), ws.uw[parentIno].mask, TRUE) EXCEPT !.root = ws.uw[parentIno].root]) @@ @]
+  ELSE ws
+
+MoveDir(ws, ino, newParentIno, name) ==
+  IF ino \in DOMAIN ws.uw /\ ws.uw[ino].rec /\ newParentIno \in DOMAIN ws.uw /\ ws.uw[newParentIno].rec
+  THEN LET old == ws.uw[ino].path
+           new == Append(ws.uw[newParentIno].path, name)
+           U == ws.uw
+       IN Note([ws EXCEPT !.uw = [k \in DOMAIN U |->
+                   IF U[k].rec /\ IsUnder(U[k].path, old)
+                   THEN [U[k] EXCEPT !.path = new \o SubSeq(U[k].path, Len(old) + 1, Len(U[k].path))] ELSE U[k]]], "recursive_rename")
+  ELSE ws
+
+IdealRemoveRec(ws, P, ret) ==
+  IF ws.phase # "open" THEN ws
+  ELSE LET S == {k \in DOMAIN ws.uw : ws.uw[k].rec /\ ws.uw[k].root = P} IN
+       IF S = {} THEN (IF ret = "ErrNonExistentWatch" THEN ws ELSE Bad(ws, {"C04", "C19"}, "remove_nonexistent:" \o ret))
+       ELSE IF ret # "ok" THEN Bad(Relax([ws EXCEPT !.uw = Without(@, S)], S), {"C04", "C19"}, "remove_failed:" \o ret)
+       ELSE Note(Relax([ws EXCEPT !.uw = Without(@, S)], S), "recursive_remove")
+
 IdealRemove(ws, P, ret) ==
   IF ws.phase = "closing" THEN ws
   ELSE IF ws.phase = "closed" THEN (IF ret = "ok" THEN ws ELSE Bad(ws, {"C06"}, "remove_after_close:" \o ret))
@@ -331,7 +372,7 @@ IdealRemove(ws, P, ret) ==
 CheckWL(ws, wl, wlnil) ==
   IF ws.phase = "closing" THEN ws
   ELSE IF ws.phase = "closed" THEN (IF wlnil THEN ws ELSE Bad(ws, {"C06"}, "watchlist_after_close"))
-  ELSE IF ws.fog THEN ws
+  ELSE IF ws.fog \/ ws.recursive THEN ws          \* what WatchList shows of a recursive watch is not specified
   ELSE
   LET set   == {wl[k] : k \in 1..Len(wl)}
       liveP == PathsOf(ws, Live(ws))
@@ -369,7 +410,7 @@ CheckObs(ws00, o, defcap) ==
       wantCap == IF ws.cap < 0 THEN defcap ELSE ws.cap
       w0 == IF o.cap # wantCap THEN Bad(ws, {"C14"}, "capacity") ELSE ws
   IN
-  IF ws.phase = "closed" \/ ws.fog THEN w0
+  IF ws.phase = "closed" \/ ws.fog \/ ws.recursive THEN w0
   ELSE
   LET inos  == {o.marks[k].ino : k \in 1..Len(o.marks)}
       liveI == Live(ws)
